@@ -158,8 +158,11 @@ fn nsh_package() -> (Vec<u8>, Vec<u8>, Vec<u8>) {
     nsh_u16(&mut o, 1); nsh_u16(&mut o, 0); nsh_u16(&mut o, 1); nsh_u16(&mut o, 1); nsh_u16(&mut o, 1); nsh_u16(&mut o, 0); // scalar, unknown, sampler, texture, uav, unknown
     nsh_u32(&mut o, 1); nsh_u32(&mut o, 1); nsh_u32(&mut o, 1); nsh_u32(&mut o, 2); nsh_u32(&mut o, 2); // system / scene / material keys, nodes, aliases
     // vertex shader: data at 0 (8 bytes of extra data precede the bytecode), 1 scalar + 1 texture parameter
-    nsh_u32(&mut o, 0); nsh_u32(&mut o, vs_code.len() as u32); nsh_u16(&mut o, 1); nsh_u16(&mut o, 0); nsh_u16(&mut o, 0); nsh_u16(&mut o, 1);
+    nsh_u32(&mut o, 0); nsh_u32(&mut o, vs_code.len() as u32); nsh_u16(&mut o, 1); nsh_u16(&mut o, 1); nsh_u16(&mut o, 2); nsh_u16(&mut o, 1);
     put_param(&mut o, &NshParam { id: 0x1001, name: "g_WorldViewMatrix", slot: 3, size: 4 }, &mut strings);
+    put_param(&mut o, &NshParam { id: 0x1003, name: "g_InstanceData", slot: 9, size: 2 }, &mut strings);
+    put_param(&mut o, &NshParam { id: 0x1004, name: "g_OutputBuffer", slot: 7, size: 1 }, &mut strings);
+    put_param(&mut o, &NshParam { id: 0x1005, name: "g_OutputBuffer2", slot: 8, size: 1 }, &mut strings);
     put_param(&mut o, &NshParam { id: 0x1002, name: "g_SamplerNormal", slot: 1, size: 1 }, &mut strings);
     // pixel shader: data after the vertex shader's, 1 resource parameter
     nsh_u32(&mut o, 8 + vs_code.len() as u32); nsh_u32(&mut o, ps_code.len() as u32); nsh_u16(&mut o, 0); nsh_u16(&mut o, 1); nsh_u16(&mut o, 0); nsh_u16(&mut o, 0);
@@ -190,7 +193,7 @@ fn nsh_package() -> (Vec<u8>, Vec<u8>, Vec<u8>) {
     (o, vs_code, ps_code)
 }
 
-//@unit props=C14 label=B tier=quick native=1 fn=shpk::ShaderPackage::{from_existing,find_node} bound="by execution: one hand-packed package with every table populated (1 vertex + 1 pixel shader with parameters, 2 material parameters with defaults, 4 package parameters, 3 keys, 2 nodes with keys and a pass, 2 aliases)"
+//@unit props=C14 label=B tier=quick native=1 fn=shpk::ShaderPackage::{from_existing,find_node} bound="by execution: one hand-packed package with every table populated (1 vertex shader with scalar, resource, 2 UAV and texture parameters + 1 pixel shader, 2 material parameters with defaults, 4 package parameters, 3 keys, 2 nodes with keys and a pass, 2 aliases)"
 //@desc the parsed package returns what was packed: shader bytecode (vertex bytecode after its 8 extra bytes), parameter names resolved through the string table with their slots, keys and defaults, nodes with their key lists and passes; find_node resolves node selectors and aliases and nothing else
 #[test]
 fn native_shpk_parse() {
@@ -201,6 +204,9 @@ fn native_shpk_parse() {
     assert_eq!(p.pixel_shaders[0].bytecode, ps_code, "pixel bytecode");
     assert_eq!((p.vertex_shaders[0].scalar_parameters[0].name.as_str(), p.vertex_shaders[0].scalar_parameters[0].slot), ("g_WorldViewMatrix", 3));
     assert_eq!((p.vertex_shaders[0].texture_parameters[0].name.as_str(), p.vertex_shaders[0].texture_parameters[0].slot), ("g_SamplerNormal", 1));
+    assert_eq!((p.vertex_shaders[0].resource_parameters[0].name.as_str(), p.vertex_shaders[0].resource_parameters[0].slot), ("g_InstanceData", 9), "a shader's lists are stored scalar, resource, UAV, texture");
+    assert_eq!(p.vertex_shaders[0].uav_parameters.iter().map(|x| (x.name.as_str(), x.slot)).collect::<Vec<_>>(), vec![("g_OutputBuffer", 7), ("g_OutputBuffer2", 8)], "UAV parameters of the vertex shader");
+    assert_eq!((p.vertex_shaders[0].scalar_parameters.len(), p.vertex_shaders[0].resource_parameters.len(), p.vertex_shaders[0].uav_parameters.len(), p.vertex_shaders[0].texture_parameters.len()), (1, 1, 2, 1));
     assert_eq!((p.pixel_shaders[0].resource_parameters[0].name.as_str(), p.pixel_shaders[0].resource_parameters[0].slot), ("g_CommonParameter", 7));
     assert_eq!(p.material_parameters_size, 8);
     assert_eq!(p.material_parameters.len(), 2);
